@@ -9,6 +9,11 @@ HOOKS = {
 ENGINES = [
     {"name": "lean-model", "path": "lean/PopsModel", "serves_properties": [], "kind_free_text": "Lean 4 model (Model/), lemmas (Lemmas/), property theorems (Props/), core-only executable driver (Driver/)"},
     {"name": "h_mmodel", "path": "harness/h_mmodel.cpp", "serves_properties": [], "kind_free_text": "C++ correspondence harness: Model::run_step through the multi-host entry point with 2-3 host pools, pest-host and competency tables from Config rows, scripted engine, injected kernel, every host's state after every action block and every single landing"},
+    {"name": "h_kern", "path": "harness/h_kern.cpp", "serves_properties": [], "kind_free_text": "C++ correspondence harness: stochastic kernels (radial with the ten laws and von Mises direction, uniform, deterministic neighbour, switch, natural-anthropogenic mix, network) driven by scripted engines; name / direction / eligibility tables; the kernel factories and the kernel Model builds for overpopulation moves"},
+    {"name": "h_det", "path": "harness/h_det.cpp", "serves_properties": [], "kind_free_text": "C++ correspondence harness: DeterministicDispersalKernel (window, weights, full allotment sequences over several source cells), quantile / density / constructor tables of the ten law classes, kernels built through the factories, fixed witnesses of the open findings"},
+    {"name": "h_multi", "path": "harness/h_multi.cpp", "serves_properties": [], "kind_free_text": "C++ correspondence harness: random operation sequences on a real MultiHostPool (2-3 hosts), pest-host and competency tables, per-host mortality, establishment, movement"},
+    {"name": "h_metric", "path": "harness/h_metric.cpp", "serves_properties": [], "kind_free_text": "C++ correspondence harness: SpreadRateAction, QuarantineEscapeAction, statistics and the averaging helpers on random rasters of every shape, several measurement steps, integer and fractional resolutions, negative area ids"},
+    {"name": "h_raster", "path": "harness/h_raster.cpp", "serves_properties": [], "kind_free_text": "C++ correspondence harness: Raster value semantics - element-wise and scalar operators over int / double mixes, comparisons, copies, moves, wrappers of caller memory (heap model with ownership), shape mismatches"},
     {"name": "h_date", "path": "harness/h_date.cpp", "serves_properties": ["C07", "C08"], "kind_free_text": "C++ correspondence harness: Date, Scheduler, schedule builders; exhaustive 400-year cycle in thorough"},
 ]
 NOTES = ("Technique: machine-checked proof in Lean 4 about a hand-written model, tied to /repo's working tree on every run by a "
